@@ -226,7 +226,7 @@ TUnblock == IsEv("unblock") /\ Rec.c \in AllConns /\ Unblock(Rec.c) /\ Consume
 \* (a frame of the library itself can have waited as well: it counts as a completed send, like iwrite)
 TFlush ==
   /\ IsEv("flush") /\ Rec.c \in AllConns
-  /\ IF PendOn(Rec.c) # {} THEN Flush(Rec.c)
+  /\ IF ThruOn(Rec.c) # {} THEN Flush(Rec.c)
      ELSE IF cs[Rec.c] \in ReadingStates THEN InfraWrite(Rec.c) ELSE Same
   /\ Consume
 TBreak == IsEv("break") /\ Rec.c \in AllConns /\ Break(Rec.c, Rec.mode) /\ Consume
